@@ -10,9 +10,15 @@ package main
 //@ event SplitOtherwise = call strings.SplitN when !(a1 == "=" && a2 == 2)
 //@ event FrontendSplit = call strings.Split
 
+//@ event EnvironRead = ret os.Environ
+// C16 / C07: an entry of the process environment without '=' (execve allows it, os.Environ returns it) must not crash the
+// initialisation that every first invocation runs: panic-freedom is proved, under the wiring fact that main passes a sandbox
 //@ func InitHandler
+//@   safety on
+//@   requires sandbox != nil && (typeis(sandbox, *rapidcore.EmulatorAPI) ==> sandbox.(*rapidcore.EmulatorAPI) != nil)
 //@   ensures [split-at-first-equals-only] delta(SplitOtherwise) == 0 && delta(FrontendSplit) == 0
 //@   loop range os.Environ(): invariant delta(SplitOtherwise) == 0 && delta(FrontendSplit) == 0
+//@   loop range os.Environ(): invariant [bounds] delta(EnvironRead) == 1 && 0 <= rangeindex + 1 && rangeindex + 1 <= len(lastret(EnvironRead))
 
 // C01: the front end hands the request body to the sandbox unchanged and answers with what the sandbox wrote
 //@ event SandboxInvoke = call cmd/aws-lambda-rie.(Sandbox).Invoke
